@@ -57,7 +57,9 @@ impl Ctx {
     }
     /// pick by tier
     pub fn t<T>(&self, quick: T, thorough: T) -> T {
-        if self.quick() {
+        // instrumented native builds (ASan, TSan, valgrind) cost 4-25x: they keep the quick-tier sizes in the
+        // thorough tier too and gain from the additional shards and the fresh zoo instead
+        if self.quick() || (std::env::var("VH_SANITIZER").is_ok() && !cfg!(miri)) {
             quick
         } else {
             thorough
